@@ -182,14 +182,16 @@ def one(job):
     import random
     import logging
     logging.disable(logging.CRITICAL)
-    seed, victim_kind, ntls, nquic, exhaustive = job
+    seed, victim_kind, ntls, nquic, exhaustive = job[:5]
+    qfeat = job[5] if len(job) > 5 else None
     rng = random.Random(seed)
     short = lambda: [(0, rng.randbytes(rng.randrange(1, 80))), (1, rng.randbytes(rng.randrange(1, 200))),
                      (0, rng.randbytes(rng.randrange(0, 50))), (1, rng.randbytes(rng.randrange(1, 90)))]
     tls_n = ntls + (1 if victim_kind == "tls" else 0)
     quic_n = nquic + (1 if victim_kind == "quic" else 0)
     mx = e2e.Mixed(rng, [e2e.random_combo(rng) for _ in range(tls_n)], n_quic=quic_n, noise=False,
-                   tls_app=[short() for _ in range(tls_n)])
+                   tls_app=[short() for _ in range(tls_n)],
+                   quic_features=[dict(qfeat) for _ in range(quic_n)] if qfeat else None)
     if victim_kind == "quic":       # make the victim connection index 0
         qk = [k for k, kd in enumerate(mx.kinds) if kd[0] == "quic"][0]
         perm = [qk] + [k for k in range(len(mx.kinds)) if k != qk]
@@ -272,6 +274,12 @@ def explore(ctx, scale=1):
     for i in range(n):
         vk = "quic" if i % 3 == 2 else "tls"
         jobs.append((rng.getrandbits(48), vk, rng.randrange(0, 3), rng.randrange(0, 2) + (1 if i % 2 else 0), i < ctx.n(3, 60)))
+    for k in range(2 * scale):
+        # several QUIC connections of the same client software: every ClientHello is cut at the same offset and sent in
+        # two datagrams; a fault on the victim (a lost first fragment leaves its second one pending for good) must not
+        # reach the bystanders' CRYPTO streams
+        jobs.append((rng.getrandbits(48), "quic", 0, 2, True,
+                     (("ch_split", "asc"), ("ch_cuts", (90 + 17 * k,)), ("ch_multi", True), ("retry", False), ("zero_rtt", False))))
     results = tool.pmap(one, jobs) if ctx.thorough() else tool.pmap(one, jobs, procs=8)
     o = ctx.oracle.setdefault("fault-enumeration", {"runs": 0, "violations": 0})
     for job, res in zip(jobs, results):
